@@ -163,7 +163,19 @@ pub fn run_batch(sc: &dyn Scenario, seed: u64, runs: u64, tier: Tier) -> BatchRe
                         }
                         for i in start..(start + chunk).min(runs) {
                             let run_seed = mix(seed, i);
-                            let (info, f) = sc.run(run_seed, i, tier, &mut st);
+                            // a panic that escapes a scenario's own guards is a harness error,
+                            // never a crash of the whole batch
+                            let r = std::panic::catch_unwind(std::panic::AssertUnwindSafe(|| sc.run(run_seed, i, tier, &mut st)));
+                            let (info, f) = match r {
+                                Ok(x) => x,
+                                Err(p) => (
+                                    RunInfo { key: 0, nontrivial: false },
+                                    Some(Failure {
+                                        viol: Viol::new("harness", format!("run {} (seed {}) panicked at {}: {}", i, run_seed, last_panic_location(), panic_message(&p))),
+                                        trace: Value::Null,
+                                    }),
+                                ),
+                            };
                             if info.nontrivial {
                                 keys.insert(info.key);
                             }
@@ -398,4 +410,11 @@ pub fn panic_message(p: &Box<dyn std::any::Any + Send>) -> String {
     } else {
         "panic".to_string()
     }
+}
+
+/// C18's precondition is "states whose fields are finite". Decided from the Debug form of
+/// the state (never from the serialised text: a serialiser that writes `null` for a finite
+/// field is a violation, not a skipped case).
+pub fn has_nonfinite_field(debug: &str) -> bool {
+    debug.contains("inf") || debug.contains("NaN")
 }
